@@ -10,9 +10,19 @@ if os.path.isdir(os.path.join(wt, "out")):   # keep the agent's output out of ./
     shutil.move(os.path.join(wt, "out"), aside)
 src = os.path.join(aside, var)
 env = dict(os.environ, GOFLAGS="-mod=mod")
+# evaluate on the current HEAD of /repo when the patch still applies there (the seed was written against an older HEAD)
+seed_wt = wt
+fresh = "/var/tmp/vs/cs-" + sid
+subprocess.run(["git", "-C", "/repo", "worktree", "remove", "--force", fresh], capture_output=True)
+subprocess.run(["git", "-C", "/repo", "worktree", "add", "-q", fresh, "HEAD"], check=True)
+if subprocess.run(["git", "-C", fresh, "apply", "--check", os.path.join(src, "patch.diff")], capture_output=True).returncode == 0:
+    wt = fresh
+    base = "current HEAD " + subprocess.run(["git", "-C", "/repo", "rev-parse", "--short", "HEAD"], capture_output=True, text=True).stdout.strip()
+else:
+    base = "the seed's own base " + subprocess.run(["git", "-C", seed_wt, "rev-parse", "--short", "HEAD"], capture_output=True, text=True).stdout.strip() + " (patch does not apply to the current HEAD)"
 def run(cmd, **kw):
     return subprocess.run(cmd, cwd=wt, env=env, capture_output=True, text=True, **kw)
-meta = {"seed": sid, "property": prop, "ran": []}
+meta = {"seed": sid, "property": prop, "base": base, "ran": []}
 run(["git", "checkout", "--", "."])
 for f in os.listdir(wt):
     if f.startswith("seed_demo_"): os.remove(os.path.join(wt, f))
@@ -46,6 +56,7 @@ ok = r0.returncode == 0 and a.returncode == 0 and vt.returncode == 0 and r1.retu
 meta["confirmed"] = ok
 meta["caught_by_quick_check"] = chk.returncode == 1
 print(json.dumps(meta, indent=1))
+subprocess.run(["git", "-C", "/repo", "worktree", "remove", "--force", fresh], capture_output=True)
 if ok:
     dst = os.path.join(ROOT, "seeded", sid)
     os.makedirs(dst, exist_ok=True)
